@@ -28,7 +28,9 @@ pub fn from_stdin() {
         let cap: u64 = f[0].parse().unwrap();
         let c0: u64 = f[1].parse().unwrap();
         let initial: usize = f[2].parse().unwrap();
-        let ops = f[3];
+        // a leading 'A' marks every initial file as read (atime after mtime)
+        let all_read = f[3].starts_with('A');
+        let ops = f[3].trim_start_matches('A');
         let draws: Vec<u64> = if f[4] == "-" { vec![] } else { f[4].split(',').map(|s| s.parse().unwrap()).collect() };
         idx += 1;
         let dir = root.path().join(format!("g{}", idx));
@@ -38,7 +40,7 @@ pub fn from_stdin() {
             let p = dir.join(format!("p{}", i));
             std::fs::write(&p, "x").unwrap();
             let m = filetime::FileTime::from_unix_time(1_600_000_000 + 10 * i as i64, 0);
-            filetime::set_file_times(&p, base, m).unwrap();
+            filetime::set_file_times(&p, if all_read { filetime::FileTime::from_unix_time(1_600_000_000 + 10 * i as i64 + 5, 0) } else { base }, m).unwrap();
         }
         // a sequence starting with S/P re-writes a key that is already cached (oldest entry)
         if ops.starts_with('S') || ops.starts_with('P') {
@@ -65,7 +67,8 @@ pub fn from_stdin() {
                 res.push("ERR".to_string());
                 break;
             }
-            res.push(format!("{}:{}", if existed { 1 } else { 0 }, count_files(&dir)));
+            // third field: is the key just written present right after the call returned?
+            res.push(format!("{}:{}:{}", if existed { 1 } else { 0 }, count_files(&dir), if dir.join(&name).exists() { 1 } else { 0 }));
         }
         writeln!(out, "G {} => {} used={}", line.trim(), res.join(" "), vh::trigger_draws_used() - used0).unwrap();
         vh::clear_scripts();
